@@ -179,7 +179,12 @@ func (c *scriptClient) SyncChain(ctx context.Context, p net.Peer, in *drand.Sync
 	}
 	cl := &call{spec: spec, from: in.GetFromRound()}
 	if spec.reach {
-		cl.stream = spec.gen(in.GetFromRound())
+		if in.GetFromRound() == 0 {
+			// what every server does for FromRound 0: nothing from the store, only future rounds
+			cl.stream = []elem{{kind: eStall}}
+		} else {
+			cl.stream = spec.gen(in.GetFromRound())
+		}
 	}
 	c.calls[a] = append(c.calls[a], cl)
 	c.mu.Unlock()
@@ -266,6 +271,16 @@ func (c *scriptClient) feed(ctx context.Context, ch chan *drand.BeaconPacket, st
 			case ch <- pk:
 			case <-ctx.Done():
 				return
+			}
+			// StartFollowChain returns as soon as a stored round >= the target closes `done`, and
+			// cancels the Sync still running asynchronously: leave it the time to do so before the
+			// next packet is offered (every later cut is accepted by the correspondence anyway)
+			if t := c.target(); c.noRecorder && t != 0 && e.b.Round >= t {
+				select {
+				case <-ctx.Done():
+					return
+				case <-time.After(400 * time.Millisecond):
+				}
 			}
 		}
 	}
